@@ -125,6 +125,9 @@ def run(chk):
     chk.explanation = ("Circuit.remove_unloaded is evaluated from source by the checker's evaluator on the reference Circuit model, exhaustively over small labelled DAGs with all output-mark choices, "
                        "plus blackbox/constant/late-unloaded special cases, with both flag values; removed set, untouched remainder, return value and idempotence compared with the definition (reachability of an endpoint).")
     chk.assume("reference Circuit model for type/is_output/fanin/fanout/remove")
+    from ..structural import vocabulary_rule
+
+    vocabulary_rule(chk, repo, "C16.S.vocabulary", [(FILE, "Circuit.remove_unloaded")])
     P = Package(repo)
     fi = repo.func(FILE, "Circuit.remove_unloaded")
     fails = {}
